@@ -230,3 +230,66 @@ func verifC19_SyncKey() {
 	}
 	s.Close()
 }
+
+// verifC19_SlowConsumer: a consumer that does not read for a long time (more distinct store
+// contents than the delivery channel buffers) and then drains still ends with the final
+// content, without any further write.
+func verifC19_SlowConsumer() {
+	const prefix = "/p/"
+	vStoreKV, vStoreRev, vRevision = map[string]string{}, map[string]int64{}, 1
+	vWatchCh = make(chan clientv3.WatchResponse, 32)
+	vTickCh = make(chan time.Time, 8)
+	vPullFails, vWatchCount = false, 0
+	s := &syncer{cluster: &cluster{}, pullInterval: time.Second, done: make(chan struct{})}
+	ch, _ := s.SyncPrefix(prefix)
+	// more writes than the channel capacity; the consumer reads a few snapshots, then stalls
+	writes := 11 + verifChoose("writesBeyondCapacity", verifBound("extraWrites")+1)
+	early := verifChoose("readsBeforeStalling", 3)
+	vals := []string{"v1", "v2", "v3"}
+	final := ""
+	for i := 0; i < writes; i++ {
+		if i < early {
+			select {
+			case <-ch:
+			default:
+			}
+		}
+		final = vals[i%3]
+		vStoreKV["/p/a"] = final
+		vRevision++
+		vStoreRev["/p/a"] = vRevision
+		vWatchCh <- clientv3.WatchResponse{} // every write is announced
+		verifQuiesce()                        // and the syncer gets time to pull (or blocks on the full channel)
+	}
+	// the consumer wakes up and drains, giving the syncer time after every receive
+	last := ""
+	n := 0
+	for {
+		verifQuiesce()
+		select {
+		case m := <-ch:
+			last = m["/p/a"]
+			n++
+			continue
+		default:
+		}
+		break
+	}
+	// a periodic pull, then drain again
+	vTickCh <- time.Time{}
+	for {
+		verifQuiesce()
+		select {
+		case m := <-ch:
+			last = m["/p/a"]
+			n++
+			continue
+		default:
+		}
+		break
+	}
+	verifAssert(n >= 1 && last == final, "slow-consumer-converges-to-the-final-content")
+	if n > 10 {
+		verifCover("more-snapshots-than-the-channel-buffers")
+	}
+}
